@@ -428,3 +428,66 @@ def c20(ctx):
     return "model_checking", ("Apalache: every repeat count N (no wrap: negative control with symbolic modulus must fail); TLC validates the exact-tick traces incl. "
                               "Times(u32::MAX) recorded in a debug and a release build (logs must be identical); object histories incl. huge repeat counts replayed in both "
                               "profiles; seeded sweep of arbitrary finite f32 durations/delays/times/values with boundary repeat counts in both profiles")
+
+
+# =========================================================================================
+#  pure functions: C13 (easing) and C14 (lerp)
+# =========================================================================================
+@check("C13")
+def c13(ctx):
+    run = run_tlc(ctx, "MC_Easing", "MC_Easing.cfg", workers=2, capture="gen-easing.txt")
+    if count_replay(run["out"]) != 29:
+        raise ToolError("MC_Easing did not print 29 tables")
+    ctx.extra["model_facts"] = "Endpoints, XMonotone, InRange, YMonotone (non-Back), MirrorCP, ParamIsNotX for N = 64 on the published control points"
+    # leg A: exact tables of the definition (D) and of the as-found parameter evaluation (I)
+    rep = run_harness(["easing-tables", run["out"]])
+    ctx.traces += 29
+    ctx.evaluations += sum(e["points"] * 2 for e in rep["easings"]) + rep["custom_checked"]
+    ctx.extra["easing_classification"] = {e["easing"]: {"class": e["class"], "max_err_definition": e["max_err_definition"], "max_err_param": e["max_err_param"]} for e in rep["easings"]}
+    for e in rep["easings"]:
+        if e["class"] != "definition":
+            ctx.violation("Easing::%s does not equal its published cubic Bezier timing function at horizontal position x" % e["easing"],
+                          {"easing": e["easing"], "class": e["class"], "worst_definition": e["worst_definition"], "worst_param": e["worst_param"]})
+    ctx.sample({"table_check": rep["easings"][9]})
+    for b in rep["custom_bad"]:
+        ctx.violation("a custom easing is not used as given", b)
+    # leg B: dense sweep of the real calc validated by TLC against the C13 laws
+    tr = ctx.path("easing.ndjson")
+    st = run_harness(["drive-easing", tr])
+    ok, rej, _ = run_trace(ctx, "Trace_Easing", tr)
+    ctx.traces += 29
+    ctx.evaluations += st["evaluations"]
+    if not ok:
+        ctx.violation("trace rejected: an easing violates end points / range / monotonicity / identity / mirror laws", {"first_unmatched_record": rej})
+    # custom easings inside timelines are exercised by the C01 replay (ids 2..5)
+    ctx.assumptions += ["control points transcribed from the CSS / easings.net values the repository documents; cross-checked by the mirror relations",
+                        "definition compared at 65 exact curve points per easing with tolerance 2e-4; laws on a 1/1024 grid plus 2^-k neighbourhoods of 0 and 1"]
+    return "model_checking", ("TLC checks the model facts on the control-point table and prints, per easing, the exact curve points (Bx, By)(k/64); the harness evaluates the real "
+                              "calc at x = Bx/den (definition) and at k/64 (as-found parameter evaluation) and classifies each easing; the real calc's dense sweep is validated by TLC "
+                              "(Trace_Easing) against end points, range, monotonicity, identity and mirror laws; custom easings are compared bit for bit with the given function")
+
+
+@check("C14")
+def c14(ctx):
+    run_tlc(ctx, "MC_Lerp", "MC_Lerp_quick.cfg", workers=8, subst={"Lo": 0, "Hi": 255})
+    if not ctx.quick():
+        run_tlc(ctx, "MC_Lerp", "MC_Lerp_quick.cfg", workers=8, subst={"Lo": -128, "Hi": 127})
+    tr = ctx.path("lerp.ndjson")
+    st = run_harness(["drive-lerp", ctx.seed, "quick" if ctx.quick() else "full", tr], timeout=3000)
+    ok, rej, _ = run_trace(ctx, "Trace_Lerp", tr, timeout=3000)
+    ctx.traces += st["records"]
+    ctx.evaluations += st["evaluations"]
+    ctx.extra["lerp_driver"] = st
+    with open(tr) as f:
+        for i, l in enumerate(f):
+            if i in (5, 900):
+                ctx.sample({"validated_record": json.loads(l)})
+    if not ok:
+        ctx.violation("trace rejected: a recorded lerp result is not allowed by Lerp.tla", {"first_unmatched_record": rej})
+    ctx.assumptions += ["integer results must be the nearest integer exactly when every f32 intermediate is exact (max(|a|,|b|)*den < 2^24), within one f32 spacing otherwise, "
+                        "either neighbour within 2^-20 of a tie; end points always exact",
+                        "float-comparison laws (betweenness to 1 ulp, f64 to f32 precision) and glam component-wise equality are judged in the harness and enter the trace as counts",
+                        "Quat / DQuat (glam's own normalising lerp) are not claimed"]
+    return "model_checking", ("TLC checks the lerp laws on Lerp.tla for all 65536 pairs of an 8-bit type x 17 abscissae; the real Lerp::lerp is swept (8-bit pairs x k/16; the f32 neighbours of "
+                              "0, 1/2, 1; boundary, mixed-magnitude and 24-bit-mantissa values for 16/32/64-bit types; m*2^s beyond 2^31; f32/f64; glam vectors) and every record is "
+                              "validated by TLC against the exact integer model")
